@@ -36,7 +36,7 @@ ASSUMPTIONS = [
     "the list model holds the include-defaults serialisation of each stored object (defaulted properties such as revoked=false are queryable)",
 ]
 TS_PROPS = {"created", "modified", "valid_from", "valid_until", "first_seen", "last_seen", "published", "first_observed", "last_observed", "seen",
-            "start_time", "stop_time"}
+            "start_time", "stop_time", "stamped_at"}
 
 
 def setup(ctx):
@@ -106,6 +106,8 @@ def build_population(rng):
                 d["spec_version"] = "2.1"
             if rng.random() < 0.5:
                 d["first_seen"] = rng.choice(forms)
+            if rng.random() < 0.7:
+                d["stamped_at"] = rng.choice(forms)          # a timestamp only dictionaries hold (no library object has the property)
             items.append(d)
         if k == 0 and rng.random() < 0.6:
             # ... and one without `modified` (a flat file in the same type directory), stored and asked for first
@@ -138,7 +140,7 @@ PROPS = {
     "string": ["name", "description", "type", "id", "relationship_type", "created_by_ref", "source_ref", "identity_class", "pattern_type", "lang"],
     "int": ["confidence", "size"],
     "bool": ["revoked", "is_family", "enabled"],
-    "ts": ["created", "modified", "valid_from", "first_seen", "published", "seen"],
+    "ts": ["created", "modified", "valid_from", "first_seen", "published", "seen", "stamped_at"],
     "list": ["labels", "aliases", "object_marking_refs", "malware_types", "tags", "sectors", "object_refs", "goals"],
     "dotted": ["external_references.source_name", "external_references.external_id", "kill_chain_phases.phase_name",
                "kill_chain_phases.kill_chain_name", "external_references.hashes.MD5"],
@@ -179,6 +181,10 @@ def gen_filter(rng, model):
             (tsor.format_us(us, "any")[:-1] + ("0Z" if "." in tsor.format_us(us, "any") and len(tsor.format_us(us, "any").split(".")[1]) < 7 else "Z"))
         if op == "in":
             lst = [text, tsor.format_us(us + 5, "any")]
+            if prop == "stamped_at" and rng.random() < 0.6:
+                # other strings among the listed values: none of them is that instant, and none makes the timestamps among them text
+                lst.insert(rng.randrange(3), rng.choice(["never", "", "2020", "not a timestamp"]))
+                return (prop, op, lst)
             if rng.random() < 0.4:
                 # datetimes (also naive = UTC) among the listed values
                 naive = dt.datetime(1, 1, 1) + dt.timedelta(microseconds=us)
@@ -231,7 +237,10 @@ def run_routes(ctx, stores, filters, exp_keys, case, tag):
                     if route == "argument":
                         res = src.query(list(libf))
                     elif route == "attached":
-                        uniq = list(dict.fromkeys(libf))       # FilterSet.add drops duplicates
+                        uniq = []                              # FilterSet.add drops duplicates (a filter whose value is a dict cannot be hashed)
+                        for f_ in libf:
+                            if f_ not in uniq:
+                                uniq.append(f_)
                         src.filters.add(list(uniq))
                         try:
                             res = src.query()
@@ -416,6 +425,12 @@ def alphabet(ids):
         ("name", "=", "n1"),
         # 'in' with a string value: a substring test, from which no shortcut can be derived
         ("type", "in", "identity,malware"), ("id", "in", i1), ("id", "in", i1 + " " + mw),
+        # a list where a single value belongs (equal to no type / id, so '!=' holds for everything), and values that are no text at all:
+        # nothing a shortcut could be derived from
+        ("type", "!=", ["identity", "malware"]), ("id", "!=", [i1, mw]), ("type", "=", ["identity"]), ("id", "=", 5), ("id", "in", [5]),
+        ("type", "in", [1, 2]), ("type", "!=", {"a": 1}), ("id", "=", {"a": 1}),
+        # holds for the older version of each identity only
+        ("name", "=", "n0"),
     ]
     return A
 
@@ -461,12 +476,22 @@ def wl_alphabet(ctx, rng, i):
                     if evaluate(filters, [latest], TS_PROPS) and g is None:
                         ctx.violation("attached-filter-hides-match", "%s.get(%s) returned nothing although the latest version satisfies the attached filter" % (name, sid),
                                       {"store": name, "filter": fdesc(filters[0]), "id": sid})
+                    # "filters attached to a source apply to every one of its answers": the answer to get() is the newest of the
+                    # versions the filters let through (what all_versions() shows), in every kind of source alike
+                    passing = evaluate(filters, model.versions(sid), TS_PROPS)
+                    if passing:
+                        newest = max(passing, key=version_instant)
+                        ctx.count("get_under_attached_filter")
+                        if g is None or key(norm(g)) != key(newest):
+                            ctx.violation("attached-filter-get-not-newest-passing", "%s.get(%s) under attached filter %s answered %s; the newest version passing the filter is %s" % (
+                                name, sid, fdesc(filters[0]), "nothing" if g is None else norm(g).get("modified"), newest.get("modified")),
+                                {"store": name, "filter": fdesc(filters[0]), "id": sid, "versions_passing": [v.get("modified") for v in passing]})
             finally:
                 src.filters.remove(lf)
 
 
 def alphabet_size(tier):
-    n = 27
+    n = 36
     return n + n * (n - 1) // 2 + (n * (n - 1) * (n - 2) // 6 if tier == "thorough" else 0)
 
 
